@@ -57,7 +57,7 @@ func newIndex(indexName, columnName string, rule func(Reader) bool) *column {
 
 // Grow grows the size of the column until we have enough to store
 func (c *columnIndex) Grow(idx uint32) {
-	c.fill.Grow(idx)
+	c.fill = growBitmap(c.fill, idx)
 }
 
 // Column returns the target name of the column on which this index should apply.
